@@ -35,7 +35,7 @@ SHARDS = 16
 REACH = {
     "quick": {"text_compared": 6000, "fixed_points": 4000, "cross_decoded": 3000, "rewrites_compared": 15000,
               "apache_vectors": 13, "rewrite_kind_name_spelling": 500, "rewrite_kind_ref_qualified": 100,
-              "rewrite_kind_inherited_spelled_out": 200, "piecewise_text_compared": 1000, "piecewise_text_compared_2plus_pieces": 300},
+              "rewrite_kind_inherited_spelled_out": 200, "piecewise_text_compared": 1000, "piecewise_text_compared_2plus_pieces": 300, "error_kind_text_compared": 300},
     "thorough": {"text_compared": 200000},
 }
 
@@ -166,6 +166,7 @@ def vectors(sh, fa):
 
 def run_shard(spec):
     import fastavro as fa
+    from fastavro.schema import to_parsing_canonical_form as to_pcf
 
     sh = Shard(PID, spec)
     rng = rng_for("C13", spec["seed"], spec["shard"])
@@ -187,6 +188,23 @@ def run_shard(spec):
         case = gen_case(rng, dict(bytes_defaults=0.0, null_ns_inside=0.05, logical=rng.random() < 0.2),
                         dict(omit_defaults=0.0, size_budget=40, big=0.0, mappings=0.0))
         sh.feat(case["features"])
+        if rng.random() < 0.1 and "record" in repr(case["schema"]):
+            # some records declared with the kind "error": compared as text only
+            from ..gen.schema import errorize
+            ejs = errorize(case["schema"], rng)
+            want = RP.pcf(ejs)
+            for arg in (copy.deepcopy(ejs), None):
+                if arg is None:
+                    st, arg = guard(fa.parse_schema, copy.deepcopy(ejs))
+                    if st == "exc":
+                        sh.violation("canonical-form-raised", "parse_schema: %s" % exc_name(arg), {"schema": ejs})
+                        break
+                st, got = guard(to_pcf, arg)
+                if st == "exc" or got != want:
+                    sh.violation("canonical-form-differs", "error-kind records: %s  specification: %s" % (exc_name(got) if st == "exc" else got[:300], want[:300]), {"schema": ejs})
+                    break
+            else:
+                sh.count("error_kind_text_compared")
         sh.run_case(one_case, sh, fa, rng, case)
         if i % 150 == 1:
             sh.sample({"schema": case["schema"], "canonical": RP.pcf(case["schema"])[:300]})
